@@ -121,8 +121,12 @@ async fn wait_plan(plan: &LookupPlan) -> Result<u8, DnsError> {
     tokio::time::sleep(Duration::from_millis(plan.delay_ms)).await;
     match plan.result {
         LookupResult::Ok(n) => Ok(n),
-        LookupResult::Err => Err(e!(DnsError::InvalidResponse)),
+        LookupResult::Err => {
+            super::fault_fired("dns_lookup_error");
+            Err(e!(DnsError::InvalidResponse))
+        }
         LookupResult::Hang => {
+            super::fault_fired("dns_lookup_never_answers");
             std::future::pending::<()>().await;
             unreachable!()
         }
